@@ -234,35 +234,39 @@ def _zero_chunk(chunk_lists):
 
 
 def classify(rec, clause):
-    """Input class of a rejected record: family, clause, (for raises) the exception type, and the structural
-    class of the input - never the concrete numbers."""
+    """Input class of a rejected record: family, clause, and the structural class of the input - never the
+    concrete numbers.  Raises whose input class is one of the recorded root causes are named by that class alone
+    (one root cause surfaces under several exception types and feature combinations)."""
     fam = rec["fam"]
     if fam in ("norm", "rechunk"):
         spec = rec["spec"]
-        feats = _feats(rec["shape"], spec)
+        feats = _feats(rec["shape"], spec).split("+")
+        exc = rec["obs"]["raised"]
         if fam == "rechunk":
             tgt = [c["t"] for c in spec if c["k"] == "tuple"]
-            if _zero_chunk(tgt) and rec.get("multistage_possible", True) and len(rec["shape"]) > 1:
-                feats += "+zero-chunk-target"
+            if _zero_chunk(tgt) and len(rec["shape"]) > 1:
+                feats.append("zero-chunk-target")
             elif _zero_chunk(rec["chunks"]):
-                feats += "+zero-chunk-source"
-        if clause == "UnexpectedRaise":
-            exc = rec["obs"]["raised"]
-            if "zero-chunk-target" in feats and exc in ("AssertionError", "IndexError"):
-                exc = "planning"          # one root cause (merge_to_number) surfaces as either
-            return "%s:UnexpectedRaise:%s:%s" % (fam, exc, feats)
-        if clause == "Limit" and (rec.get("prev") or fam == "rechunk"):
-            feats += "+prev"
-        return "%s:%s:%s" % (fam, clause, feats)
-    feats = "zero-chunk-target" if _zero_chunk(rec["new"]) else ("zero-chunk-source" if _zero_chunk(rec["old"]) else "basic")
-    if any(sum(ax) == 0 for ax in rec["old"]):
-        feats += "+empty-dim"
-    if clause == "UnexpectedRaise":
+                feats.append("zero-chunk-source")
+    else:
+        feats = ["zero-chunk-target"] if _zero_chunk(rec["new"]) else (["zero-chunk-source"] if _zero_chunk(rec["old"]) else ["basic"])
+        if any(sum(ax) == 0 for ax in rec["old"]):
+            feats.append("empty-dim")
         exc = rec.get("raised", "")
-        if feats.startswith("zero-chunk-target") and exc in ("AssertionError", "IndexError"):
-            exc = "planning"
-        return "%s:UnexpectedRaise:%s:%s" % (fam, exc, feats)
-    return "%s:%s:%s" % (fam, clause, feats)
+    if clause == "UnexpectedRaise":
+        if exc == "ZeroDivisionError" and {"auto", "empty-dim"} <= set(feats):
+            return "%s:UnexpectedRaise:auto+empty-dim" % fam
+        if exc in ("AssertionError", "IndexError") and "zero-chunk-target" in feats:
+            return "%s:UnexpectedRaise:zero-chunk-target" % fam
+        return "%s:UnexpectedRaise:%s:%s" % (fam, exc, "+".join(feats))
+    if clause in ("Limit", "Chunks"):
+        prev = rec.get("prev") if fam == "norm" else rec.get("chunks")
+        if prev and _zero_chunk(prev) and "auto" in feats:
+            # automatic chunking guided by previous chunks that contain a zero-width block
+            return "%s:Limit:auto+zero-chunk-previous" % fam
+        if prev:
+            feats.append("prev")
+    return "%s:%s:%s" % (fam, clause, "+".join(feats))
 
 
 def _clause(texts):
@@ -389,7 +393,7 @@ PLAN_SETTINGS = [(1, 16), (1, 64), (2, 32), (None, None)]
 
 
 def _rechunk_work(item):
-    case, exp, settings, spell = item
+    case, exp, settings, spell, nplan = item
     ref = cells(id_array(case["shape"]))
     if ref != list(exp["cells"]):
         return {"guard": ref}
@@ -404,7 +408,7 @@ def _rechunk_work(item):
         res.append((cl, st, {"obs": obs, "got": got} if cl else None, multistage))
         inner_all.extend(inner)
     nd = len(case["shape"])
-    direct = direct_records(case, PLAN_SETTINGS if nd > 1 else PLAN_SETTINGS[:1])
+    direct = direct_records(case, (PLAN_SETTINGS[:nplan] if nd > 1 else PLAN_SETTINGS[:1]))
     return {"res": res, "records": inner_all + direct}
 
 
@@ -551,7 +555,7 @@ def rechunk_items(ctx, cases, nsettings):
             sts = [SETTINGS[0], ctx.rng.choice(SETTINGS[1:])][:nsettings]
         else:
             sts = [SETTINGS[1]] + ctx.rng.sample([SETTINGS[0], SETTINGS[2], SETTINGS[3]], max(0, nsettings - 1))
-        items.append((c["c"], c["e"], sts, ctx.rng.choice(["tuple", "tuple", "list", "dict", "dictneg"])))
+        items.append((c["c"], c["e"], sts, ctx.rng.choice(["tuple", "tuple", "list", "dict", "dictneg"]), ctx.pick(2, 4)))
     return items
 
 
@@ -559,7 +563,7 @@ def rechunk_replay(ctx, items):
     """Replay enumerated (source, target) pairs; judge against the exported expectation; return the inner/direct
     plan and old_to_new records (decided by TLC later) and the number of multi-stage plans seen."""
     recs, multi = [], 0
-    for (case, exp, _s, spell), r in zip(items, pmap(_rechunk_work, items)):
+    for (case, exp, _s, spell, _n), r in zip(items, pmap(_rechunk_work, items)):
         if "guard" in r:
             raise MachineryError("TLA+ identity reference disagrees with NumPy on %r" % (case,))
         for entry in r["res"]:
@@ -632,20 +636,21 @@ def random_phase(ctx, n):
 
 
 def run(ctx):
-    ext = [0, 1, 5, 7, 12]
-    shapes = [[a] for a in ext] + [[a, b] for a in ext for b in ext]
+    ext = ctx.pick([0, 1, 5, 12], [0, 1, 5, 7, 12])
+    shapes = [[a] for a in [0, 1, 5, 7, 12]] + [[a, b] for a in ext for b in ext]
     shapes += ctx.pick([[5, 1, 7], [0, 5, 12]],
                        [[5, 1, 7], [0, 5, 12], [7, 7, 7], [12, 5, 1], [1, 0, 5], [12, 12, 12], [5, 7, 0], [1, 1, 1]])
     nrecs, t1, s1 = norm_phase(ctx, {"Fam": "norm", "N": -1, "Z": 0, "Shapes": TLA(_tla_shapes(shapes)), "ZShapes": TLA("{}"),
                                      "Limits": set(ctx.pick([1, 4, 16, 64], [1, 2, 4, 8, 16, 64])),
+                                     "Limits3": set(ctx.pick([2, 16], [1, 4, 16, 64])),
                                      "Itemsizes": set(ctx.pick([1, 8], [1, 4, 8]))},
-                               ctx.pick(1, 2), ctx.pick(12000, 250000))
-    nd_shapes = ctx.pick("{<<2, 3>>, <<4, 4>>, <<2, 3, 2>>}", "{<<2, 3>>, <<4, 3>>, <<4, 4>>, <<5, 4>>, <<2, 3, 2>>, <<3, 3, 3>>}")
+                               ctx.pick(1, 2), ctx.pick(9000, 250000))
+    nd_shapes = ctx.pick("{<<2, 3>>, <<4, 3>>, <<2, 2, 2>>}", "{<<2, 3>>, <<4, 3>>, <<4, 4>>, <<5, 4>>, <<2, 3, 2>>, <<3, 3, 3>>}")
     rrecs, t2, s2, m2 = rechunk_phase(ctx, {"Fam": "rechunk", "N": ctx.pick(6, 7), "Z": 3, "Shapes": TLA(nd_shapes),
-                                            "ZShapes": TLA(ctx.pick("{<<2, 2>>, <<1, 3>>, <<0, 3>>}",
+                                            "ZShapes": TLA(ctx.pick("{<<2, 2>>, <<0, 3>>}",
                                                                     "{<<2, 2>>, <<1, 3>>, <<0, 3>>, <<3, 2>>, <<2, 0>>}")),
-                                            "Limits": {1}, "Itemsizes": {1}},
-                                      {"1d": 10 ** 9, "nd": ctx.pick(2000, 14000), "zero": ctx.pick(800, 6000)}, ctx.pick(2, 3))
+                                            "Limits": {1}, "Limits3": {1}, "Itemsizes": {1}},
+                                      {"1d": 10 ** 9, "nd": ctx.pick(1200, 14000), "zero": ctx.pick(700, 6000)}, ctx.pick(2, 3))
     qrecs, m3 = random_phase(ctx, ctx.pick(1000, 15000))
     validate(ctx, nrecs + rrecs + qrecs, "all-recorded-calls")
     md = sum(1 for r in rrecs if r["fam"] == "plan" and len(r["steps"]) > 1)
@@ -701,3 +706,116 @@ def replay(ctx, obj):
 def _validate_quiet(ctx, recs):
     spec, cfg = ctx.model(ctx.spec("array", "RechunkTrace.tla"), {})
     return ctx.tlc_validate(spec, _slim(recs), cfg)
+
+
+# --------------------------------------------------------------------------- selftest
+def _selftest_cases(ctx):
+    spec, cfg = ctx.model(ctx.spec("array", "RechunkMC.tla"),
+                          {"Fam": "norm", "N": -1, "Z": 0, "Shapes": TLA("{<<5>>, <<12>>, <<7, 5>>}"), "ZShapes": TLA("{}"),
+                           "Limits": {4, 16}, "Limits3": {4}, "Itemsizes": {1, 4}}, invariants=["WitnessOK"])
+    ncases, _ = ctx.tlc_cases(spec, cfg, label="selftest:norm-cases")
+    spec, cfg = ctx.model(ctx.spec("array", "RechunkMC.tla"),
+                          {"Fam": "rechunk", "N": 4, "Z": 0, "Shapes": TLA("{<<2, 3>>}"), "ZShapes": TLA("{}"),
+                           "Limits": {1}, "Limits3": {1}, "Itemsizes": {1}}, invariants=["RefTiles"])
+    rcases, _ = ctx.tlc_cases(spec, cfg, label="selftest:rechunk-cases")
+    return ncases, rcases
+
+
+def _selftest_norm(ctx, ncases, prefix):
+    import random
+    rng = random.Random(7)
+    recs = []
+    for i, c in enumerate(ncases):
+        v = norm_variants(c["c"], rng, 1)[0]
+        r = norm_record(("%s_n%d" % (prefix, i), c["c"], v))
+        if "skip" not in r:
+            recs.append(r)
+    return recs
+
+
+def _selftest_rechunk(rcases, prefix):
+    """-> (number of replayed rechunks judged wrong, call records for TLC)"""
+    wrong, recs = 0, []
+    for i, c in enumerate(rcases):
+        r = _rechunk_work((c["c"], c["e"], [SETTINGS[0], SETTINGS[1]], "tuple", 2))
+        wrong += sum(1 for e in r["res"] if e[0] not in (None, "SKIP"))
+        for j, rr in enumerate(r["records"]):
+            rr["id"] = "%s_d%d_%d" % (prefix, i, j)
+            recs.append(rr)
+    return wrong, recs
+
+
+def selftest(ctx):
+    import copy
+    import dask.array.core as C
+    from ..srcmut import mutant
+    R = _rmod()
+    _install_recorders()
+    ok = True
+    ncases, rcases = _selftest_cases(ctx)
+    base_n = _selftest_norm(ctx, ncases, "b")
+    base_wrong, base_r = _selftest_rechunk(rcases, "b")
+    batches = {"base": base_n + base_r}
+    replay_wrong = {"base": base_wrong}
+    mutants = [
+        ("M1 core.round_to: max(1, int(c)) -> max(1, int(c) + 1)  [automatic chunk one too large]",
+         C, "round_to", "return max(1, int(c))", "return max(1, int(c) + 1)", "norm"),
+        ("M2 core.blockdims_from_blockshape: remainder block dropped",
+         C, "blockdims_from_blockshape", "+ ((d % bd,) if d % bd else ())", "", "norm"),
+        ("M3 rechunk._intersect_1d: end = br - last_br + start -> br - last_br  [dropped operand]",
+         R, "_intersect_1d", "end = br - last_br + start", "end = br - last_br", "rechunk"),
+        ("M4 rechunk.find_merge_rechunk: chunk_limit off by a factor (int(limit * width / block) -> int(limit * width))",
+         R, "find_merge_rechunk", "chunk_limit = int(block_size_limit * largest_width / largest_block_size)",
+         "chunk_limit = int(block_size_limit * largest_width)", "rechunk"),
+    ]
+    for k, (title, mod, fn, old, new, kind) in enumerate(mutants):
+        tag = "m%d" % (k + 1)
+        with mutant(mod, fn, old, new):
+            if kind == "norm":
+                batches[tag] = _selftest_norm(ctx, ncases, tag)
+                replay_wrong[tag] = 0
+            else:
+                replay_wrong[tag], batches[tag] = _selftest_rechunk(rcases, tag)
+    # (ii) corrupted recorded fields / dropped events
+    good_n = next(r for r in base_n if r["obs"]["raised"] == "" and len(r["obs"]["chunks"][0]) > 1)
+    good_o = next(r for r in base_r if r["fam"] == "o2n" and any(len(nb) > 1 for ax in r["pieces"] for nb in ax))
+    good_p = next(r for r in base_r if r["fam"] == "plan" and r["old"] != r["new"])
+    c1 = copy.deepcopy(good_n); c1["id"] = "c_norm"; c1["obs"]["chunks"][0][0] += 1; c1["obs"]["chunks"][0][1] -= 1
+    c2 = copy.deepcopy(good_o); c2["id"] = "c_o2n"
+    for ax in c2["pieces"]:
+        for nb in ax:
+            if len(nb) > 1:
+                nb.pop()
+                break
+    c3 = copy.deepcopy(good_p); c3["id"] = "c_plan"; c3["steps"] = c3["steps"][:-1] + [c3["old"]]
+    item = random_rechunks(__import__("random").Random(3), 1)[0]
+    good_q = rechunk_record(("c_rechunk_good",) + item[1:])["rec"]
+    c4 = copy.deepcopy(good_q); c4["id"] = "c_rechunk"
+    if len(c4["obs"]["cells"]) > 1:
+        c4["obs"]["cells"][0], c4["obs"]["cells"][-1] = c4["obs"]["cells"][-1], c4["obs"]["cells"][0]
+    else:
+        c4["obs"]["chunks"][0] = [9] + c4["obs"]["chunks"][0]
+    batches["corrupt"] = [c1, c2, c3, c4, good_q]
+    allrecs = [r for b in batches.values() for r in b]
+    rej = validate(ctx, allrecs, "selftest", report=False)
+    def nrej(tag):
+        return sum(1 for r in batches[tag] if r["id"] in rej)
+    b = nrej("base") + replay_wrong["base"]
+    print("selftest C23: unmutated dask on the self-test case set: %d rejected / %d records, %d wrong replays -> %s"
+          % (nrej("base"), len(batches["base"]), replay_wrong["base"], "ok" if b == 0 else "FAILED"))
+    ok &= b == 0
+    for k, (title, *_rest) in enumerate(mutants):
+        tag = "m%d" % (k + 1)
+        n = nrej(tag) + replay_wrong[tag]
+        clauses = sorted({rej[r["id"]] for r in batches[tag] if r["id"] in rej})
+        print("selftest C23: mutant %s: %d records rejected by TLC %s, %d replays judged wrong -> %s"
+              % (title, nrej(tag), clauses, replay_wrong[tag], "DETECTED" if n > 0 else "MISSED"))
+        ok &= n > 0
+    for r in batches["corrupt"]:
+        want = r["id"] != "c_rechunk_good"
+        got = r["id"] in rej
+        print("selftest C23: %s record %s -> %s" % ("corrupted" if want else "uncorrupted", r["id"],
+              ("rejected (%s)" % rej[r["id"]]) if got else "accepted") + ("" if want == got else "  FAILED"))
+        ok &= want == got
+    print("selftest C23: %s" % ("all binding checks hold" if ok else "FAILED"))
+    return 0 if ok else 1
